@@ -4,7 +4,7 @@ from trie.smt import SparseMerkleTree, calc_root
 from ..core import Blob, HarnessError, Violation, deep, fresh, hx, unhx
 from ..models.smtref import RefSMT
 from ..hworld import in_handler
-from ..simdb import SimDB
+from ..simdb import SimDB, make_store
 
 ID = "C14"
 LEVEL = "exploration"
@@ -48,7 +48,7 @@ class SWorld:
         self.ks = int(cfg["ks"])
         self.default = unhx(cfg["default"])
         self.smt = SparseMerkleTree(key_size=self.ks, default=Blob(self.default) if cfg.get("sub_default") else self.default)
-        self.db = SimDB(self.smt.db)
+        self.db = make_store(cfg, self.smt.db)
         self.smt.db = self.db
         self.ref = RefSMT(self.ks, self.default)
         self.model = {}
@@ -267,7 +267,7 @@ def execute(case, st):
 def make_cfg(rng):
     ks = rng.choice([1, 1, 1, 2, 2, 2, 3, 3, 4, 8, 20, 32])
     default = rng.choice([b"", b"", b"\x00", b"dflt", bytes(32), bytes(range(32))])
-    return {"ks": ks, "default": hx(default), "sub_default": int(rng.random() < 0.2)}
+    return {"ks": ks, "default": hx(default), "sub_default": int(rng.random() < 0.2), "store": rng.choice(["min", "min", "dict"])}
 
 
 def make_keys(rng, ks, n=None):
